@@ -108,10 +108,14 @@ def caseD (f : List String) : String :=
 def caseK (f : List String) : String :=
   match f with
   | [n, bpops, trace, _prog] =>
-    match natOf n, setup "00" bpops, (list trace ",").mapM parseEv with
+    -- `<n>e`: breakOnError is on (a killed thread may suspend again at an error return; the controller
+    -- answers later suspensions with resume)
+    let boe := n.endsWith "e"
+    let n := if boe then (n.dropEnd 1).toString else n
+    match natOf n, setup (if boe then "01" else "00") bpops, (list trace ",").mapM parseEv with
     | some n, some d, some t =>
       let kill : Act := ⟨[], none⟩
-      let r := runTrace (Run.init d (List.replicate (t.length + 1) kill)) t
+      let r := runTrace (Run.init d [kill]) t
       if r.susp.isEmpty then "released=0 end=fin"
       else s!"released={n} end=" ++ (if r.killed then "kill" else "fin") ++ "\tnt=1"
     | _, _, _ => "bad-payload"
